@@ -210,7 +210,8 @@ theorem full_iteration_lists_live_keys {m : OMap K V} (I : Inv norm hash m) :
     symbolsAll m = Spec.ownKeys (abs m) ∧ (symbolsAll m).Nodup := symbolsAll_spec norm hash I
 
 /-- Go-side `Export()` of a Map/Set (and `ExportTo` a slice/array): `size` slots, at most `size` calls of `next()`
-(builtin_map.go:53-68, builtin_set.go:52-90).  Because `size` is exactly the number of live entries, this visits every
+(builtin_map.go:53-71, builtin_set.go:52-93; since 29d16ec both first return the copy already made in the same export
+context, if any — C13's identity cache — otherwise run this loop).  Because `size` is exactly the number of live entries, this visits every
 entry present, once, in insertion order. -/
 theorem export_lists_all_entries {m : OMap K V} (I : Inv norm hash m) :
     drain m m.size newIter = Spec.ownKeys (abs m) := export_spec norm hash I
